@@ -137,3 +137,37 @@ def op_counter_replay(job):
 
 
 OPS = {k[3:]: v for k, v in list(globals().items()) if k.startswith('op_')}
+
+
+def op_parse_lines(job):
+    """generic_line_parser on rendered lines.  job: data_source, lines [str], fw_map, header."""
+    import argparse
+    from outrank.core_utils import generic_line_parser
+    args = argparse.Namespace(data_source=job['data_source'])
+    out = []
+    for ln in job['lines']:
+        try:
+            out.append(generic_line_parser(ln, job.get('delimiter', ','), args, job.get('fw_map'), job.get('header')))
+        except Exception as e:  # noqa: BLE001
+            out.append({'error': repr(e)[:200]})
+    return out
+
+
+def op_parse_namespace(job):
+    import os
+    import tempfile
+    from outrank.core_utils import parse_namespace
+    out = []
+    for text in job['files']:
+        fd, path = tempfile.mkstemp(suffix='.csv')
+        with os.fdopen(fd, 'w') as f:
+            f.write(text)
+        try:
+            fs, m = parse_namespace(path)
+            out.append({'floats': sorted(fs), 'map': m})
+        finally:
+            os.unlink(path)
+    return out
+
+
+OPS = {k[3:]: v for k, v in list(globals().items()) if k.startswith('op_')}
